@@ -1370,7 +1370,7 @@ func ruleLockOrder(c *Ctx, groupPrefix string) {
 						c.note("lock order: nested acquisition of %s at %s accepted: %s", cls, e.via, why)
 					} else {
 						bad++
-						c.fail(rule, fnDisplay(e.fn), "nested "+cls, c.P.pos(e.pos), "acquires "+cls+" of a second instance while holding one, without a fixed instance order: "+why)
+						c.fail(rule, fnDisplay(e.fn), "nested "+cls, c.P.pos(e.pos), "acquires "+cls+" while already holding a lock of that class (the same instance again — a recursive read lock deadlocks behind a pending writer — or a second instance without a fixed instance order): "+why)
 					}
 				}
 			}
